@@ -34,6 +34,11 @@ fn named(k: usize) -> Vec<NamedSymbol> {
     [("a'", 2usize), ("\u{e9}", 3), ("x_1", 7), ("b", 11)].iter().take(k).map(|(n, i)| sym(n, *i)).collect()
 }
 
+/// names only an API user can create: backslash, double quote, newline, trailing backslash
+fn named_exotic() -> Vec<NamedSymbol> {
+    [("p\\n", 1usize), ("\"q\"", 5), ("r\\", 6)].iter().map(|(n, i)| sym(n, *i)).collect()
+}
+
 fn filt(i: usize) -> TruthTableEntry {
     [TruthTableEntry::Any, TruthTableEntry::True, TruthTableEntry::False][i]
 }
@@ -163,7 +168,8 @@ fn judge_bdd_dot(g: &DotGraph, f: &HN, names: &[String], want: u64, fi: usize) -
 }
 
 fn check_bdd_export(ctx: &mut Ctx, sp: &Space<NamedSymbol>, tt: u64, fi: usize) {
-    let case = json!({"part": "bdd", "k": sp.k, "f": tt, "filter": fi});
+    let exotic = sp.syms.first().map(|s| s.name.contains('\\')).unwrap_or(false);
+    let case = json!({"part": if exotic { "bdd-exotic" } else { "bdd" }, "k": sp.k, "f": tt, "filter": fi});
     ctx.begin_case(|| case.clone());
     ctx.count("evaluations", 1);
     let f = sp.get(tt);
@@ -397,7 +403,7 @@ fn tree_alpha() -> Alpha {
         not: true,
         bins: ALL_BINS.to_vec(),
         ite: true,
-        quants: vec![(true, vec![s("a'")]), (false, vec![s("a'"), s("\u{e9}")]), (true, vec![])],
+        quants: vec![(true, vec![s("a'")]), (false, vec![s("a'"), s("\u{e9}")]), (true, vec![]), (true, vec![s("a'"), s("a'")]), (false, vec![s("\u{e9}"), s("a'"), s("a'"), s("\u{e9}")])],
         fps: vec![(s("X"), false), (s("a'"), true)],
         cmps: ALL_CMPS.to_vec(),
         nums: vec![s("0"), s("2")],
@@ -407,32 +413,54 @@ fn tree_alpha() -> Alpha {
 }
 
 fn check_cli_files(ctx: &mut Ctx, text: &str) {
-    let case = json!({"part": "cli", "text": text});
-    ctx.begin_case(|| case.clone());
-    ctx.count("evaluations", 1);
-    ctx.count("cli_runs", 1);
-    let key = format!("{TAG} rsbdd -d -p: {text}");
-    let mut inv = Inv::new(text, &[]);
-    inv.dot = true;
-    inv.parsetree = true;
-    let r = inv.run();
-    if !r.run.ok() {
-        ctx.violation(key, format!("rsbdd failed: {} {}", r.run.describe(), r.run.err_tail()), case);
-        return;
-    }
-    let ImplParse::Ok(p) = impl_parse(text) else { return };
-    let Ok(res) = impl_eval(&p) else { return };
-    let mut b1 = vec![];
-    let mut b2 = vec![];
-    let _ = BDDGraph::new(&res, TruthTableEntry::Any).render_dot(&mut b1);
-    let _ = SymbolicParseTree::new(&p.bdd).render_dot(&mut b2);
-    let d = r.dot.unwrap_or_default();
-    let pt = r.parsetree.unwrap_or_default();
-    ctx.distinct(&normalise_ids(&String::from_utf8_lossy(&d)));
-    if normalise_ids(&String::from_utf8_lossy(&d)) != normalise_ids(&String::from_utf8_lossy(&b1)) {
-        ctx.violation(key, format!("the -d file differs from the API rendering of the same diagram:\n{}\nvs\n{}", String::from_utf8_lossy(&d), String::from_utf8_lossy(&b1)), case);
-    } else if pt != b2 {
-        ctx.violation(key, format!("the -p file differs from the API rendering of the same tree:\n{}\nvs\n{}", String::from_utf8_lossy(&pt), String::from_utf8_lossy(&b2)), case);
+    // variants: (extra options, filter of the export, is the diagram the model)
+    let variants: [(&[&str], usize, bool); 5] = [(&[], 0, false), (&["-f", "t"], 1, false), (&["-f", "False"], 2, false), (&["-m"], 0, true), (&["-m", "-f", "f"], 2, true)];
+    for (vi, (opts, fi, model)) in variants.iter().enumerate() {
+        let case = json!({"part": "cli", "text": text, "variant": vi});
+        ctx.begin_case(|| case.clone());
+        ctx.count("evaluations", 1);
+        ctx.count("cli_runs", 1);
+        let key = format!("{TAG} rsbdd -d -p {}: {text}", opts.join(" "));
+        let mut inv = Inv::new(text, opts);
+        inv.dot = true;
+        inv.parsetree = true;
+        let r = inv.run();
+        if !r.run.ok() {
+            ctx.violation(key, format!("rsbdd failed: {} {}", r.run.describe(), r.run.err_tail()), case);
+            continue;
+        }
+        let ImplParse::Ok(p) = impl_parse(text) else { return };
+        let Ok(mut res) = impl_eval(&p) else { return };
+        if *model {
+            let env = p.env.clone();
+            match guarded(|| env.model(res.clone())) {
+                Ok(m) => res = m,
+                Err(_) => continue,
+            }
+        }
+        let mut b1 = vec![];
+        let mut b2 = vec![];
+        let _ = BDDGraph::new(&res, filt(*fi)).render_dot(&mut b1);
+        let _ = SymbolicParseTree::new(&p.bdd).render_dot(&mut b2);
+        let d = r.dot.unwrap_or_default();
+        let pt = r.parsetree.unwrap_or_default();
+        ctx.distinct(&(vi, normalise_ids(&String::from_utf8_lossy(&d))));
+        // the API rendering itself is judged by the read-back oracle above; here the files the
+        // binary writes must be that rendering (for the diagram: the model with -m, under -f)
+        let api = String::from_utf8_lossy(&b1).into_owned();
+        let names = p.vars.iter().map(|v| v.name.as_ref().clone()).collect::<Vec<_>>();
+        let want_tt = tt_named(&res, &names).ok();
+        let mut complaints = vec![];
+        if let (Ok(g), Some(w), true) = (dot::parse(&String::from_utf8_lossy(&d)), want_tt, names.len() <= 6) {
+            complaints = judge_bdd_dot(&g, &res, &names, w, *fi);
+        }
+        if !complaints.is_empty() {
+            ctx.violation(key, format!("the -d file does not denote the diagram under the requested filter: {}\n{}", complaints.join("; "), String::from_utf8_lossy(&d)), case);
+        } else if normalise_ids(&String::from_utf8_lossy(&d)) != normalise_ids(&api) {
+            ctx.violation(key, format!("the -d file differs from the API rendering of the same diagram and filter:\n{}\nvs\n{}", String::from_utf8_lossy(&d), api), case);
+        } else if pt != b2 {
+            ctx.violation(key, format!("the -p file differs from the API rendering of the same tree:\n{}\nvs\n{}", String::from_utf8_lossy(&pt), String::from_utf8_lossy(&b2)), case);
+        }
     }
 }
 
@@ -449,6 +477,20 @@ fn run(ctx: &mut Ctx) {
                         if ctx.mine(idx) {
                             check_bdd_export(ctx, &sp, tt, fi);
                         }
+                    }
+                }
+            }
+        }
+    }
+    match Space::<NamedSymbol>::by_interning(&named_exotic()) {
+        Err(e) => ctx.violation(format!("{TAG} building diagrams"), e, json!({"part": "bdd-exotic", "f": 0, "filter": 0})),
+        Ok(sp) => {
+            let mut idx = 0;
+            for tt in 0..sp.nfun() as u64 {
+                for fi in 0..3 {
+                    idx += 1;
+                    if ctx.mine(idx) {
+                        check_bdd_export(ctx, &sp, tt, fi);
                     }
                 }
             }
@@ -481,6 +523,11 @@ fn run(ctx: &mut Ctx) {
 fn replay(ctx: &mut Ctx, c: &Value) {
     match c["part"].as_str() {
         Some("tree") => check_tree_export(ctx, c["text"].as_str().unwrap_or("")),
+        Some("bdd-exotic") => {
+            if let Ok(sp) = Space::<NamedSymbol>::by_interning(&named_exotic()) {
+                check_bdd_export(ctx, &sp, c["f"].as_u64().unwrap_or(0), c["filter"].as_u64().unwrap_or(0) as usize);
+            }
+        }
         Some("cli") => {
             check_cli_files(ctx, c["text"].as_str().unwrap_or(""));
             crate::cli::cleanup_scratch();
